@@ -79,3 +79,66 @@ Lemma rt_error_out_ext {A} t c s : out_ext s (snd (@rt_error A t c s)).
 Proof.
   unfold rt_error. apply (@Pr_runtime_error_cls out_ext out_ext_refl out_ext_trans A).
 Qed.
+
+(* ---- variables keep their identity: name, declared type, CONSTANT flag and owner of a cell never change, and
+        no cell disappears, whatever runs (only payloads change, and only through set_cell_val) ---- *)
+Definition cells_below (s : st) : Prop := forall id c, nm_get id (s_cells s) = Some c -> (id < s_next s)%N.
+Definition same_meta (c c' : cell) : Prop :=
+  c_name c' = c_name c /\ c_type c' = c_type c /\ c_const c' = c_const c /\ c_owner c' = c_owner c.
+Definition meta_kept (s s' : st) : Prop :=
+  cells_below s ->
+  cells_below s' /\ (s_next s <= s_next s')%N /\
+  forall id c, nm_get id (s_cells s) = Some c -> exists c', nm_get id (s_cells s') = Some c' /\ same_meta c c'.
+
+Lemma same_meta_refl c : same_meta c c.
+Proof. repeat split. Qed.
+Lemma same_meta_trans a b c : same_meta a b -> same_meta b c -> same_meta a c.
+Proof. unfold same_meta. intros [H1 [H2 [H3 H4]]] [G1 [G2 [G3 G4]]]. repeat split; congruence. Qed.
+
+Lemma meta_kept_refl s : meta_kept s s.
+Proof. intros H. split; [exact H|]. split; [lia|]. intros id c E. exists c. split; [exact E|apply same_meta_refl]. Qed.
+Lemma meta_kept_trans a b c : meta_kept a b -> meta_kept b c -> meta_kept a c.
+Proof.
+  intros H1 H2 Ha. destruct (H1 Ha) as [Hb [L1 K1]]. destruct (H2 Hb) as [Hc [L2 K2]].
+  split; [exact Hc|]. split; [lia|]. intros id x E. destruct (K1 id x E) as [y [Ey My]]. destruct (K2 id y Ey) as [z [Ez Mz]].
+  exists z. split; [exact Ez|eapply same_meta_trans; eassumption].
+Qed.
+(* an update that leaves cells and counter alone *)
+Lemma meta_kept_other s s' : s_cells s' = s_cells s -> s_next s' = s_next s -> meta_kept s s'.
+Proof.
+  intros Hc Hn Hb. unfold cells_below. rewrite Hc, Hn. split; [exact Hb|]. split; [lia|].
+  intros id c E. exists c. split; [exact E|apply same_meta_refl].
+Qed.
+
+Theorem run_block_keeps_cell_identity ped repl lim fuel bl c s : meta_kept s (snd (run_block ped repl lim fuel bl c s)).
+Proof.
+  apply (Pr_run_block meta_kept meta_kept_refl meta_kept_trans); try (intros; apply meta_kept_other; reflexivity).
+  - (* fresh alone *) intros s0 Hb. unfold cells_below in *. split; [intros id c0 E; cbn [s_next set_next s_cells] in *; specialize (Hb id c0 E); lia|]. split; [cbn [s_next set_next]; lia|].
+    intros id c0 E. exists c0. split; [exact E|apply same_meta_refl].
+  - (* allocation under the identifier just taken *)
+    intros c0 s0 Hb. unfold cells_below in *. cbn [s_cells s_next set_cells set_next]. split; [|split; [lia|]].
+    + intros id x E. destruct (N.eq_dec (s_next s0) id) as [<-|Hne]; [lia|].
+      rewrite nm_get_put_other in E by exact Hne. specialize (Hb id x E). lia.
+    + intros id x E. assert (Hne : s_next s0 <> id) by (specialize (Hb id x E); lia).
+      exists x. split; [rewrite nm_get_put_other by exact Hne; exact E|apply same_meta_refl].
+  - (* a new payload for an existing cell *)
+    intros id v c0 s0 E0 Hb. unfold cells_below in *. cbn [s_cells s_next set_cells]. split; [|split; [lia|]].
+    + intros j x E. destruct (N.eq_dec id j) as [<-|Hne]; [apply (Hb id c0 E0)|].
+      rewrite nm_get_put_other in E by exact Hne. apply (Hb j x E).
+    + intros j x E. destruct (N.eq_dec id j) as [<-|Hne].
+      * rewrite nm_get_put_same. eexists. split; [reflexivity|]. assert (x = c0) by congruence. subst x. repeat split.
+      * exists x. split; [rewrite nm_get_put_other by exact Hne; exact E|apply same_meta_refl].
+Qed.
+
+(* in particular: a CONSTANT stays flagged, so every guarded write site keeps rejecting it; a variable keeps its type *)
+Corollary constant_flag_and_type_are_permanent ped repl lim fuel bl c s id cl :
+  cells_below s -> nm_get id (s_cells s) = Some cl ->
+  exists cl', nm_get id (s_cells (snd (run_block ped repl lim fuel bl c s))) = Some cl' /\
+              c_const cl' = c_const cl /\ c_type cl' = c_type cl /\ c_name cl' = c_name cl.
+Proof.
+  intros Hb E. destruct (run_block_keeps_cell_identity ped repl lim fuel bl c s Hb) as [_ [_ K]].
+  destruct (K id cl E) as [cl' [E' [M1 [M2 [M3 M4]]]]]. exists cl'. repeat split; assumption.
+Qed.
+
+Lemma nm_get_empty {A} id : nm_get id (@nm_empty A) = None.
+Proof. unfold nm_get, nm_empty. destruct id; cbn; try reflexivity; apply PositiveMap.gempty. Qed.
